@@ -102,15 +102,18 @@ C = {
   TECH + "model-level theorems + vector enumeration by TLC (LabelGen), outcomes judged by LabelJudge.tla"),
  "C18": ("model_checking", "5/C18",
   "At every product state (dead slots with stale contents and never-added slots included) to_xml() and to_dot() are parsed back into facts and compared with the specification state; "
-  "two objects with the same vertices, edges and data must print identical text.",
-  TECH + "read-only observers in the product exploration; facts judged by Trace.tla (lens C18)"),
+  "two objects with the same vertices, edges and data must print identical text. The same observers every 20-60 calls of long histories at the limits (E3): 16-label hubs, 14 groups, "
+  "ids up to 255, 297 vertices at once, a path of 224 vertices, labels that print alike on one vertex to one target, labels holding a quote / a backslash (DOT strings are read with "
+  "their escapes), data of 4 KiB to 1 MiB on original and copy.",
+  TECH + "read-only observers in the product exploration and in validated traces; facts judged by Trace.tla (lens C18)"),
  "C19": ("model_checking", "5/C19",
   "E1: MC_Indep.tla, two instances of the model with different N/capacity stepped by the same calls keep the same answers, and so do a slice from every vertex and the merge of that slice at every vertex (SlicesSame, MergesSame); differential replay: the same call sequence, recorded in "
   "the smallest configuration and validated by Trace.tla, is replayed twice more there (new processes) and in each larger configuration; complete observation logs must be identical.",
   TECH + "two-instance model check; differential replay of validated traces across configurations and processes"),
  "C20": ("model_checking", "5/C20",
   "At every product state: Debug, Display and v_print of every present vertex are parsed and compared with the specification state; inspect(v) is a transition of the emitted system "
-  "whose expected edge set TLC computes (Reach); a process killed by stack overflow or a hang is reported with the call that was running.",
+  "whose expected edge set TLC computes (Reach); a process killed by stack overflow or a hang is reported with the call that was running. E3: the same observers in long "
+  "histories at the limits, incl. one path of 224 vertices through fourteen groups; where edges dangle, what inspect lists is left open but it must come back.",
   TECH + "read-only observers in the product exploration; facts judged by Trace.tla (lens C20)"),
 }
 
